@@ -3651,9 +3651,9 @@ impl<'a> Parser<'a> {
         let mut name = None;
         if self.peek_token() != Token::LParen {
             if self.parse_keyword(Keyword::IN) {
-                storage_specifier = self.parse_identifier(false).ok()
+                storage_specifier = Some(self.parse_identifier(false)?)
             } else {
-                name = self.parse_identifier(false).ok();
+                name = Some(self.parse_identifier(false)?);
             }
 
             // Storage specifier may follow the name
@@ -3661,7 +3661,7 @@ impl<'a> Parser<'a> {
                 && self.peek_token() != Token::LParen
                 && self.parse_keyword(Keyword::IN)
             {
-                storage_specifier = self.parse_identifier(false).ok();
+                storage_specifier = Some(self.parse_identifier(false)?);
             }
         }
 
@@ -5042,7 +5042,7 @@ impl<'a> Parser<'a> {
         let if_exists = self.parse_keywords(&[Keyword::IF, Keyword::EXISTS]);
         let name = self.parse_identifier(false)?;
         let storage_specifier = if self.parse_keyword(Keyword::FROM) {
-            self.parse_identifier(false).ok()
+            Some(self.parse_identifier(false)?)
         } else {
             None
         };
